@@ -6,7 +6,7 @@
    delta = 2^-49 + 2^-52 d: the two passes do compute the floor, which the source marks "TODO: check this method is really correct". *)
 From Coq Require Import ZArith Reals Psatz Floats Bool List Lia.
 From Flocq Require Import Core BinarySingleNaN PrimFloat.
-From PB Require Import Proofs.TwoSumExact Model.Phase2 Model.PhaseOrd Model.PhaseDivmod Proofs.Floor Proofs.DayFrac Proofs.DayFrac3
+From PB Require Import Proofs.TwoSumExact Model.Phase2 Model.PhaseOrd Model.PhaseDivmod Proofs.Floor Proofs.DayFrac Proofs.DayFrac3 Proofs.DayFracTail Proofs.FoldHalf Proofs.DayFracFold
   Proofs.PhaseAdd Proofs.PhaseMore Proofs.PhaseCmp Proofs.PhaseCmpAll Proofs.PhaseMul Proofs.DivChain Proofs.PhaseDiv Proofs.PhaseArgmin Proofs.PhaseSort Proofs.PhaseRemainder
   Proofs.PhaseDivmodProofs.
 Open Scope R_scope.
@@ -76,7 +76,7 @@ Section Floor.
     - exact BfdR.
     - rewrite EF. fold D. apply Rle_trans with (1:=BF). rewrite minus_IZR, P40. simpl. lra.
     - exists rem. split; [exact E|]. split; [|rewrite EF in A5; exact A5].
-      split; [exact A2|]. split; [exact A3|]. split; [|exact A6].
+      split; [exact A2|]. split; [exact A3|]. split; [|first [exact A6|apply half_slack; exact A6]].
       (* |count| <= |V rem| + |frac| *)
       rewrite EF in A5. fold D in A5.
       assert (BV : Rabs (V rem) <= 2 * (IZR (2 ^ 39) + 2048)).
